@@ -16,13 +16,17 @@ import (
 	"encoding/json"
 	"fmt"
 	"math"
+	"math/rand"
 	"os"
 	"os/exec"
 	"path/filepath"
 	"regexp"
+	"runtime"
+	"runtime/debug"
 	"sort"
 	"strconv"
 	"strings"
+	"sync/atomic"
 	"syscall"
 	"time"
 
@@ -33,6 +37,7 @@ func init() {
 	register("C08", runC08)
 	register("C08-probe", runC08Probe)
 	register("C08-api", runC08API)
+	register("C08-inctree", runC08IncTree)
 }
 
 // ---------- guarded calls ----------
@@ -648,6 +653,8 @@ func runC08(c *Ctx) {
 	c08Tokens(c)
 	// ---- 3. src_stm action: Go vs model ----
 	c08SrcAction(c)
+	// ---- 3b. include trees with planted errors: every returned error is rendered (child process) ----
+	c08RunIncTrees(c)
 	tTok := time.Since(t0)
 
 	// ---- 4. scaling probes (subprocess) ----
@@ -669,7 +676,7 @@ func runC08(c *Ctx) {
 	}
 	r.Violations = append(r.Violations, sub.Violations...)
 	r.Notes = append(r.Notes, sub.Notes...)
-	r.note("phase wall times: tokens+src action %.1fs, scaling probes %.1fs, API monitors (child, concurrent) done after %.1fs",
+	r.note("phase wall times: tokens+src action+include trees %.1fs, scaling probes %.1fs, API monitors (child, concurrent) done after %.1fs",
 		tTok.Seconds(), tScale.Seconds(), time.Since(t0).Seconds())
 }
 
@@ -1491,4 +1498,285 @@ func c08Scaling(c *Ctx) {
 		c.Res.Extra = map[string]interface{}{}
 	}
 	c.Res.Extra["scaling_probes"] = table
+}
+
+// ---------- include trees with planted errors ----------
+
+type c08TreeCase struct {
+	Index   int               `json:"index"`
+	Files   map[string]string `json:"files"`
+	Root    string            `json:"root"`
+	Planted string            `json:"planted_error"`
+	Shape   string            `json:"shape"`
+}
+
+// c08GenTree builds case k deterministically from (seed, k): an include graph over 2..6 files
+// (tree + back edges = cycles of any length, also below the root; cross edges = several includers;
+// self includes; duplicate and missing includes) with an error planted in a random file.
+func c08GenTree(seed int64, k int) c08TreeCase {
+	rng := rand.New(rand.NewSource(seed*1000003 + int64(k)*7919 + 17))
+	n := 2 + rng.Intn(5)
+	names := make([]string, n)
+	for i := range names {
+		if i > 0 && rng.Intn(3) == 0 {
+			names[i] = fmt.Sprintf("sub/f%d.mro", i)
+		} else {
+			names[i] = fmt.Sprintf("f%d.mro", i)
+		}
+	}
+	inc := make([][]string, n)
+	var shape []string
+	add := func(i int, target string) { inc[i] = append(inc[i], target) }
+	for i := 1; i < n; i++ { // spanning tree: everything reachable from the root
+		add(rng.Intn(i), names[i])
+	}
+	extra := rng.Intn(4)
+	for e := 0; e < extra; e++ {
+		i, j := rng.Intn(n), rng.Intn(n)
+		switch {
+		case i == j:
+			shape = append(shape, "self-include")
+		case j < i:
+			shape = append(shape, "back-edge")
+		default:
+			shape = append(shape, "cross-edge")
+		}
+		add(i, names[j])
+	}
+	if rng.Intn(3) == 0 { // a definite cycle of length 1..4 somewhere (possibly below the root)
+		l := 1 + rng.Intn(minInt(4, n))
+		start := rng.Intn(n - l + 1)
+		for t := 0; t < l; t++ {
+			add(start+t, names[start+(t+1)%l])
+		}
+		shape = append(shape, fmt.Sprintf("cycle%d@%d", l, start))
+	}
+	if rng.Intn(5) == 0 {
+		i := rng.Intn(n)
+		if len(inc[i]) > 0 {
+			add(i, inc[i][0])
+			shape = append(shape, "duplicate-include")
+		}
+	}
+	files := map[string]string{}
+	body := func(i int) string {
+		var sb strings.Builder
+		for _, t := range inc[i] {
+			fmt.Fprintf(&sb, "@include \"%s\"\n", t)
+		}
+		fmt.Fprintf(&sb, "\nfiletype t%d;\n\nstage S%d(\n    in  int x,\n    out t%d y,\n    src py  \"s%d\",\n)\n", i, i, i, i)
+		if i == 0 {
+			sb.WriteString("\ncall S0(\n    x = 1,\n)\n")
+		}
+		return sb.String()
+	}
+	for i := range names {
+		files[names[i]] = body(i)
+	}
+	planted := "none"
+	nerr := rng.Intn(3)
+	for e := 0; e < nerr; e++ {
+		i := rng.Intn(n)
+		src := files[names[i]]
+		kind := []string{"lex-error", "truncation", "syntax-error", "compile-error", "missing-include", "unterminated-string", "duplicate-stage"}[rng.Intn(7)]
+		switch kind {
+		case "lex-error":
+			pos := rng.Intn(len(src) + 1)
+			src = src[:pos] + "$" + src[pos:]
+		case "truncation":
+			src = src[:rng.Intn(len(src))]
+		case "syntax-error":
+			src = strings.Replace(src, "stage S", "stage (S", 1)
+		case "compile-error":
+			src = strings.Replace(src, "in  int x", "in  nosuchtype x", 1)
+		case "missing-include":
+			src = "@include \"nope/missing.mro\"\n" + src
+		case "unterminated-string":
+			src = strings.Replace(src, "\",\n)", ",\n)", 1)
+		case "duplicate-stage":
+			src += fmt.Sprintf("\nstage S%d(\n    in  int other,\n    src py \"dup\",\n)\n", rng.Intn(n))
+		}
+		files[names[i]] = src
+		if planted == "none" {
+			planted = ""
+		}
+		planted += fmt.Sprintf("%s in %s; ", kind, names[i])
+	}
+	sort.Strings(shape)
+	return c08TreeCase{Index: k, Files: files, Root: names[0], Planted: planted, Shape: strings.Join(shape, "+")}
+}
+
+func c08TreeCount(c *Ctx) int {
+	if c.Thorough {
+		return 15000
+	}
+	return 600
+}
+
+// runC08IncTree (child): cases VERIF_C08_TREE_START.. ; stack capped, watchdog on heap and time.
+func runC08IncTree(c *Ctx) {
+	r := c.Res
+	start, _ := strconv.Atoi(os.Getenv("VERIF_C08_TREE_START"))
+	lastFile := os.Getenv("VERIF_C08_LAST")
+	debug.SetMaxStack(64 << 20)
+	var caseStart atomic.Int64
+	caseStart.Store(time.Now().UnixNano())
+	go func() { // watchdog: a runaway rendering must not take the machine down
+		for {
+			time.Sleep(50 * time.Millisecond)
+			var ms runtime.MemStats
+			runtime.ReadMemStats(&ms)
+			if ms.HeapAlloc > 768<<20 {
+				fmt.Fprintln(os.Stderr, "C08-inctree watchdog: heap above 768 MB")
+				os.Exit(97)
+			}
+			if time.Since(time.Unix(0, caseStart.Load())) > 6*time.Second {
+				fmt.Fprintln(os.Stderr, "C08-inctree watchdog: one case running for more than 6 s")
+				os.Exit(98)
+			}
+		}
+	}()
+	n := c08TreeCount(c)
+	dir := filepath.Join(c.Scratch, "tree")
+	for k := start; k < n; k++ {
+		tc := c08GenTree(c.Seed, k)
+		if lastFile != "" {
+			if b, err := json.Marshal(tc); err == nil {
+				os.WriteFile(lastFile, b, 0o644)
+			}
+		}
+		caseStart.Store(time.Now().UnixNano())
+		os.RemoveAll(dir)
+		total := 0
+		for rel, content := range tc.Files {
+			p := filepath.Join(dir, rel)
+			os.MkdirAll(filepath.Dir(p), 0o755)
+			os.WriteFile(p, []byte(content), 0o644)
+			total += len(content)
+		}
+		r.count(fmt.Sprintf("tree:%d", k), tc.Planted != "none" || tc.Shape != "")
+		r.hist("include-tree")
+		for _, sh := range strings.Split(tc.Shape, "+") {
+			if sh != "" {
+				r.hist("include-tree-shape:" + strings.TrimRight(sh, "0123456789@"))
+			}
+		}
+		root := filepath.Join(dir, tc.Root)
+		var err error
+		var panicked string
+		func() {
+			defer func() {
+				if x := recover(); x != nil {
+					panicked = fmt.Sprint(x)
+				}
+			}()
+			_, _, _, err = syntax.ParseSourceBytes([]byte(tc.Files[tc.Root]), root, []string{dir}, false)
+			if err == nil {
+				r.hist("include-tree-outcome:tree")
+				return
+			}
+			r.hist("include-tree-outcome:error")
+			// render the error and every element of an error list
+			var all []error
+			var walk func(e error, depth int)
+			walk = func(e error, depth int) {
+				if e == nil || depth > 8 {
+					return
+				}
+				all = append(all, e)
+				if l, ok := e.(syntax.ErrorList); ok {
+					for _, x := range l {
+						walk(x, depth+1)
+					}
+				}
+			}
+			walk(err, 0)
+			for _, e := range all {
+				msg := e.Error()
+				r.hist("include-tree-errors-rendered")
+				if len(msg) > 1<<20 || len(msg) > 4096*(total+200) {
+					r.violate(Violation{Kind: "property", Key: "C08:oversized-error-message",
+						What:  fmt.Sprintf("an error message of %d bytes for %d bytes of source in %d files", len(msg), total, len(tc.Files)),
+						Input: tc, Impl: msg[:400], Expect: "a message of a size proportional to the input"})
+				}
+				if _, isList := e.(syntax.ErrorList); !isList && !c08LocRe.MatchString(msg) {
+					r.violate(Violation{Kind: "property", Key: "C08:unlocated-error:" + c08Norm(msg),
+						What: "an error of an include tree carries no source position: " + msg, Input: tc})
+				}
+			}
+		}()
+		if panicked != "" {
+			r.violate(Violation{Kind: "property", Key: "C08:panic:" + c08Norm(panicked),
+				What: "ParseSourceBytes / Error() panicked on an include tree: " + panicked, Input: tc})
+		}
+		if d := time.Since(time.Unix(0, caseStart.Load())); d > 2*time.Second {
+			r.violate(Violation{Kind: "property", Key: "C08:hang:include-tree",
+				What: fmt.Sprintf("compiling and rendering the errors of %d bytes in %d files took %v", total, len(tc.Files), d), Input: tc})
+		}
+	}
+}
+
+// c08RunIncTrees (parent): runs the child, restarts it after the case it died on.
+func c08RunIncTrees(c *Ctx) {
+	r := c.Res
+	self, err := os.Executable()
+	if err != nil {
+		r.note("include-tree stream skipped: %v", err)
+		return
+	}
+	n := c08TreeCount(c)
+	start := 0
+	for restarts := 0; start < n && restarts < 6; restarts++ {
+		outf := filepath.Join(c.Scratch, fmt.Sprintf("tree-result-%d.json", restarts))
+		last := filepath.Join(c.Scratch, "tree-last.json")
+		os.Remove(last)
+		cmd := exec.Command(self, "-tier", c.Tier, "-seed", strconv.FormatInt(c.Seed, 10), "-out", outf, "-repo", c.RepoDir, "C08-inctree")
+		cmd.Env = append(os.Environ(), "VERIF_C08_LAST="+last, fmt.Sprintf("VERIF_C08_TREE_START=%d", start), "GOMAXPROCS=4")
+		var eb bytes.Buffer
+		cmd.Stderr = &eb
+		cmd.Stdout = &eb
+		runErr := cmd.Run()
+		if runErr == nil {
+			if b, err := os.ReadFile(outf); err == nil {
+				var cr Result
+				if json.Unmarshal(b, &cr) == nil {
+					r.Evals += cr.Evals
+					r.Distinct += cr.Distinct
+					for k, v := range cr.Histogram {
+						if r.Histogram == nil {
+							r.Histogram = map[string]int{}
+						}
+						r.Histogram[k] += v
+					}
+					r.Violations = append(r.Violations, cr.Violations...)
+				}
+			}
+			return
+		}
+		msg := eb.String()
+		cls := "crash"
+		switch {
+		case strings.Contains(msg, "stack overflow") || strings.Contains(msg, "stack exceeds"):
+			cls = "stack-overflow"
+		case strings.Contains(msg, "heap above") || strings.Contains(msg, "out of memory"):
+			cls = "out-of-memory"
+		case strings.Contains(msg, "running for more than"):
+			cls = "hang"
+		}
+		head := msg
+		if i := strings.Index(head, "fatal error"); i >= 0 {
+			head = head[i:]
+		}
+		if len(head) > 1200 {
+			head = head[:1200]
+		}
+		var tc c08TreeCase
+		if b, err := os.ReadFile(last); err == nil {
+			json.Unmarshal(b, &tc)
+		}
+		r.violate(Violation{Kind: "property", Key: "C08:fatal:" + cls,
+			What:  "compiling an include tree, or rendering (Error()) an error it returned, killed the process: " + cls + " (stack capped at 64 MB, heap watchdog 768 MB, 6 s per case)",
+			Input: tc, Impl: head, Expect: "a located error message of proportionate size; the process survives"})
+		start = tc.Index + 1
+	}
 }
